@@ -186,3 +186,27 @@ def dataset_digest(spec: dict) -> str:
     except ValueError:
         return "ValueError"
     return hashlib.sha256(json.dumps([(g_of(m)["cl"], [list(c) for c in as_cells(m.solution)]) for m in ds.mazes]).encode()).hexdigest()
+
+
+def cfg_fields(cfg) -> dict:
+    """content of a configuration object read field by field, without going through the library's serializer (which is itself code
+    under test and runs on the caller's object): what 'the configuration object passed in is not modified' is compared on.
+    Containers are compared by content (tuple / list and key order are not distinguished), functions by name."""
+    import numpy as np
+
+    def canon(v):
+        if isinstance(v, dict):
+            return {"dict": sorted((str(k), canon(x)) for k, x in v.items())}
+        if isinstance(v, (list, tuple)):
+            return [canon(x) for x in v]
+        if isinstance(v, np.ndarray):
+            return {"nd": v.tolist()}
+        if isinstance(v, np.generic):
+            return v.item()
+        if callable(v):
+            return {"fn": getattr(v, "__name__", repr(v))}
+        if isinstance(v, (str, int, float, bool)) or v is None:
+            return v
+        return repr(v)
+
+    return {k: canon(v) for k, v in sorted(vars(cfg).items()) if not k.startswith("_")}
